@@ -559,21 +559,39 @@ def _is_roundtrip_failure(failure):
     return failure.startswith("reparse:") or failure.startswith("idempotence:")
 
 
+def _looked_at(url):
+    """(path, …) the parser routes on: the split of the url after infer_redirection — computed here with urllib only"""
+    from ural.infer_redirection import infer_redirection
+    from ural.utils import safe_urlsplit
+
+    try:
+        return safe_urlsplit(infer_redirection(url))
+    except Exception:  # noqa
+        return None
+
+
 def kf_yt_reserved_name_behind_at(case, failure):
     """youtube.com/@watch: the final `else` of parse_youtube_url consults the blacklist BEFORE removing the leading '@'s,
-    so a reserved path behind an '@' becomes a channel name whose canonical url (youtube.com/watch) is the reserved page."""
+    so a reserved path behind an '@' becomes a channel name whose canonical url (youtube.com/watch) is the reserved page.
+    Exactly: the path is '/' + '@'… + <reserved word> (+ '/'…), the record is the channel of that name, its url parses to None."""
     from ural import youtube as y
 
     if case.get("k") != "yt" or not _is_roundtrip_failure(failure):
         return False
     p = _safe(y.parse_youtube_url, case["url"])
-    return isinstance(p, y.YoutubeChannel) and p.id is None and p.name in y.YOUTUBE_CHANNEL_NAME_BLACKLIST
+    sp = _looked_at(case["url"])
+    if sp is None or not (isinstance(p, y.YoutubeChannel) and p.id is None and p.name in y.YOUTUBE_CHANNEL_NAME_BLACKLIST):
+        return False
+    path = sp.path.rstrip("/")
+    return path.count("/") == 1 and path.startswith("/@") and path.lstrip("/").lstrip("@") == p.name and \
+        _safe(y.parse_youtube_url, _safe(y.normalize_youtube_url, case["url"])) is None
 
 
 def kf_trailing_blank_id(case, failure):
     """'youtube.com/user/x /', 'youtube.com/channel/x /', 'docs.google.com/document/d/x /edit': a user name / channel id /
     drive file id taken from the middle of the path keeps its trailing blank; at the END of the canonical url that blank is
-    removed by pathsplit's strip()."""
+    removed by pathsplit's strip().  Exactly: the field ends with white space and the canonical url parses to the same record
+    with the field right-stripped (None when nothing is left)."""
     from ural import google as g
     from ural import youtube as y
 
@@ -581,14 +599,23 @@ def kf_trailing_blank_id(case, failure):
         return False
     if case.get("k") == "yt":
         p = _safe(y.parse_youtube_url, case["url"])
+        p2 = _safe(y.parse_youtube_url, _safe(y.normalize_youtube_url, case["url"]))
         if isinstance(p, y.YoutubeUser):
-            return p.name.rstrip() != p.name
-        if isinstance(p, y.YoutubeChannel) and p.id is not None:
-            return p.id.rstrip() != p.id
-        return False
+            f = p.name
+            want = y.YoutubeUser(id=None, name=f.rstrip()) if f.rstrip() else None
+        elif isinstance(p, y.YoutubeChannel) and p.id is not None:
+            f = p.id
+            want = y.YoutubeChannel(id=f.rstrip(), name=None) if f.rstrip() else None
+        else:
+            return False
+        return f.rstrip() != f and p2 == want
     if case.get("k") == "g":
         p = _safe(g.parse_google_drive_url, case["url"])
-        return p.__class__ is g.GoogleDriveFile and p.id.rstrip() != p.id
+        if p.__class__ is not g.GoogleDriveFile or p.id.rstrip() == p.id:
+            return False
+        p2 = _safe(g.parse_google_drive_url, p.url)
+        want = g.GoogleDriveFile(p.type, p.id.rstrip()) if p.id.rstrip() else None
+        return p2 == want
     return False
 
 
